@@ -548,9 +548,6 @@ impl<'input> State<'input> {
             .map(|attrs| get_meta_info(&trait_attr, attrs, allowed_attr_params_inner))
             .collect();
         let meta_infos = meta_infos?;
-        let first_match = meta_infos
-            .iter()
-            .find_map(|info| info.enabled.map(|_| info));
         let any_enabling = meta_infos
             .iter()
             .any(|info| info.enabled == Some(true));
@@ -584,18 +581,12 @@ impl<'input> State<'input> {
         let defaults = struct_meta_info.into_full(FullMetaInfo {
             enabled: default_enabled,
             forward: false,
-            // Default to owned true, except when first attribute has one of owned,
-            // ref or ref_mut
+            // Default to owned true, except for an attribute having one of owned,
+            // ref or ref_mut (see `MetaInfo::into_full()`)
             // - not a single attribute means default true
             // - an attribute, but non of owned, ref or ref_mut means default true
             // - an attribute, and owned, ref or ref_mut means default false
-            //
-            // `Unwrap` and `TryUnwrap` document `ref`/`ref_mut` as additions to the owned accessor.
-            owned: matches!(trait_name, "Unwrap" | "TryUnwrap")
-                || first_match.map_or(true, |info| {
-                    info.owned.is_none() && info.ref_.is_none()
-                        || info.ref_mut.is_none()
-                }),
+            owned: true,
             ref_: false,
             ref_mut: false,
             info: MetaInfo::default(),
@@ -604,6 +595,12 @@ impl<'input> State<'input> {
         let full_meta_infos: Vec<_> = meta_infos
             .into_iter()
             .map(|info| info.into_full(defaults.clone()))
+            .map(|mut info| {
+                // `Unwrap` and `TryUnwrap` document `ref`/`ref_mut` as additions to the owned
+                // accessor.
+                info.owned |= matches!(trait_name, "Unwrap" | "TryUnwrap");
+                info
+            })
             .collect();
 
         let variant_states: Result<Vec<_>> = if derive_type == DeriveType::Enum {
@@ -1440,7 +1437,10 @@ impl MetaInfo {
         FullMetaInfo {
             enabled: self.enabled.unwrap_or(defaults.enabled),
             forward: self.forward.unwrap_or(defaults.forward),
-            owned: self.owned.unwrap_or(defaults.owned),
+            // An attribute selecting any of owned, ref or ref_mut selects exactly those.
+            owned: self.owned.unwrap_or(
+                defaults.owned && self.ref_.is_none() && self.ref_mut.is_none(),
+            ),
             ref_: self.ref_.unwrap_or(defaults.ref_),
             ref_mut: self.ref_mut.unwrap_or(defaults.ref_mut),
             info: self,
